@@ -179,7 +179,8 @@ Definition quiescent (s : ostate) : bool :=
   match q s, active s, owed s with [], [], None => negb (starting s) | _, _, _ => false end.
 
 (* ---------- correspondence ---------- *)
-Record ocase := { oc_cfg : ocfg; oc_steps : list ostep; oc_final_output : Z }.
+Record ocase := { oc_cfg : ocfg; oc_steps : list ostep; oc_final_output : Z;
+                  oc_stopid : option nat }.   (* the put that carries the stop_data, if any *)
 
 Definition ocase_agree (k : ocase) : bool :=
   match orun (oc_cfg k) ostate0 (oc_steps k) with
@@ -211,7 +212,18 @@ Fixpoint out_track (xs : list ostep) (starts ups downs : nat) (out : nat) : bool
   | _ :: r => out_track r starts ups downs out
   end.
 
+(* 'stop_data processed last': once the run for the stop_data has started no other run starts and no
+   other run is still to end (in every mode) *)
+Fixpoint stop_last (id : nat) (seen : bool) (xs : list ostep) : bool :=
+  match xs with
+  | [] => true
+  | OStart _ i :: r => if Nat.eqb i id then stop_last id true r else negb seen && stop_last id seen r
+  | OEnd _ i _ :: r => if Nat.eqb i id then stop_last id seen r else negb seen && stop_last id seen r
+  | _ :: r => stop_last id seen r
+  end.
+
 Definition ocase_monitor (k : ocase) : bool :=
+  match oc_stopid k with Some id => stop_last id false (oc_steps k) | None => true end &&
   (* exactly one result event per accepted put, none for anything else *)
   forallb (fun id => Nat.eqb (count_results id (oc_steps k)) 1) (puts_of (oc_steps k)) &&
   forallb (fun id => memn id (puts_of (oc_steps k))) (results_of (oc_steps k)) &&
